@@ -63,7 +63,21 @@ func runC03(c *Ctx) {
 		case o != nil && (o.Name() == "AsyncPost" || o.Name() == "Post") && len(callArgs(ci)) > 0 && types.Identical(stripConv(callArgs(ci)[0]).Type(), ricEv):
 			what = "round-index-change"
 		default:
-			continue
+			// a part of judgeVoteCount factored out into a helper that escalates: judged at its call
+			if h := ci.Common().StaticCallee(); onlyCalledFrom(w, h, jvc) {
+				for _, cj := range callInstrs(h) {
+					oj := calleeObj(cj)
+					switch {
+					case sameFunc(oj, commitObj):
+						what = "commit"
+					case sameFunc(oj, voteObj) && what == "":
+						what = "vote"
+					}
+				}
+			}
+			if what == "" {
+				continue
+			}
 		}
 		c.sites++
 		ok := gateOK(ci)
@@ -74,7 +88,7 @@ func runC03(c *Ctx) {
 			continue
 		}
 		for _, ci := range callsTo(fn, commitObj) {
-			ok := fn == jvc
+			ok := fn == jvc || onlyCalledFrom(w, fn, jvc)
 			c.Check(outerName(fname(fn))+"#calls-commit", ci.Pos(), ok, ifelse(ok, "commit is called from judgeVoteCount only", "commit is called outside the quorum-gated escalation"))
 		}
 		for _, ci := range callsTo(fn, voteObj) {
@@ -82,7 +96,7 @@ func runC03(c *Ctx) {
 			if !isK || (k != kindVal("Precommit") && k != kindVal("Certificate")) {
 				continue
 			}
-			ok := fn == jvc
+			ok := fn == jvc || onlyCalledFrom(w, fn, jvc)
 			c.Check(outerName(fname(fn))+"#calls-vote-escalation", ci.Pos(), ok, ifelse(ok, "precommit/certificate votes are cast from judgeVoteCount only", "a precommit or certificate vote is cast outside the quorum-gated escalation"))
 		}
 		// every caller hands judgeVoteCount a count that was produced by counting a vote
@@ -225,20 +239,36 @@ func runC03(c *Ctx) {
 		}
 		shouldCertF := w.Field(uconPkg, "Voter", "shouldCert")
 		n := 0
-		for _, fn := range withSplitOffHelpers(w, jvcFn) {
-			for _, ci := range callsTo(fn, commitObj) {
+		// commit sites: the calls of commit in judgeVoteCount, and the calls of a factored-out part that commits
+		type csite struct {
+			at    ssa.Instruction
+			atoms []Atom
+		}
+		var csites []csite
+		for _, ci := range callsTo(jvcFn, commitObj) {
+			csites = append(csites, csite{ci.(ssa.Instruction), atomsOf(factsAtInstr(ci.(ssa.Instruction)))})
+		}
+		for _, cj := range callInstrs(jvcFn) {
+			h := cj.Common().StaticCallee()
+			if !onlyCalledFrom(w, h, jvcFn) {
+				continue
+			}
+			for i, prm := range h.Params {
+				if i < len(cj.Common().Args) {
+					paramBind[prm] = cj.Common().Args[i]
+				}
+			}
+			for _, ck := range callsTo(h, commitObj) {
+				atoms := append(atomsOf(factsAtInstr(cj.(ssa.Instruction))), atomsOf(factsAtInstr(ck.(ssa.Instruction)))...)
+				csites = append(csites, csite{cj.(ssa.Instruction), atoms})
+			}
+		}
+		for _, cs := range csites {
+			{
 				n++
 				c.sites++
-				atoms := atomsOf(factsAtInstr(ci.(ssa.Instruction)))
-				if fn != jvcFn {
-					// a split-off part of judgeVoteCount: the conditions at its call in judgeVoteCount hold too
-					bindSplitOff(w, jvcFn)
-					for _, cj := range callInstrs(jvcFn) {
-						if cj.Common().StaticCallee() == fn {
-							atoms = append(atoms, atomsOf(factsAtInstr(cj.(ssa.Instruction)))...)
-						}
-					}
-				}
+				atoms := cs.atoms
+				ci := cs.at
 				kindIs := func(k int64) bool {
 					for _, a := range atoms {
 						if a.Kind == "eq" && a.Truth && a.Y != nil && vtParam != nil {
